@@ -481,6 +481,12 @@ func (w *World) preRegisterTags(specDir string) {
 				if mi, ok := in.(*ssa.MakeInterface); ok {
 					w.tagFor(mi.X.Type())
 				}
+				if ta, ok := in.(*ssa.TypeAssert); ok && !types.IsInterface(ta.AssertedType) {
+					w.tagFor(ta.AssertedType)
+					if pt, isPtr := ta.AssertedType.(*types.Pointer); isPtr {
+						w.tagFor(pt.Elem())
+					}
+				}
 				if v, ok := in.(ssa.Value); ok {
 					reg(v.Type(), 0)
 				}
